@@ -1047,8 +1047,12 @@ def unforgeability(assertions, honest, attacker_terms, mac_lengths=(32, 48)):
             lem.append(Implies(And(w == m, Length(w) == Length(m)), Or(*[And(key == q[1], data == q[2]) for q in hq]) if hq else BoolVal(False)))
     for v in [t for n in ('ed25519_verify', 'p384_ecdsa_verify_sha384', 'rsa_pss_sha384_verify') for t in apps.get(n, [])]:
         hq = [q for q in honest.get('sign', []) if q[0] == v.decl().name()]
-        if not any(v.arg(0).eq(q[1]) for q in hq) and not honest.get('sign_any_pk'): continue
-        lem.append(Implies(v, Or(*[And(v.arg(0) == q[1], v.arg(1) == q[2]) for q in hq]) if hq else BoolVal(False)))
+        pks = []
+        for q in hq + [(v.decl().name(), pk, None) for pk in honest.get('honest_pks', [])]:
+            if not any(q[1].eq(x) for x in pks): pks.append(q[1])
+        for pk in pks:     # a signature that verifies under the honest public key was produced by the honest signer for that very message
+            mine = [q for q in hq if q[1].eq(pk)]
+            lem.append(Implies(And(v, v.arg(0) == pk), Or(*[v.arg(1) == q[2] for q in mine]) if mine else BoolVal(False)))
     for d in apps.get('xchacha20poly1305_decrypt_ok', []):
         hq = honest.get('aead', [])
         if not any(d.arg(0).eq(k) for k in honest.get('aead_keys', [])): continue
